@@ -754,8 +754,7 @@ func init() {
 			{Entry: "VerifC06Watch", Params: map[string]int{"N": 2, "L": 1, "WTXNQ": 1, "NOMOVE": 1}, Covers: []string{"C06.wtxn-queries", "C06.committed", "C06.aborted", "C06.end"}, NoNative: true},
 			{Entry: "VerifKFWtxnGetWatch"}},
 		Thorough: []HarnessRun{c06ps(1, 2, 1), c06ps(2, 2, 1), c02(2),
-			{Entry: "VerifC06Watch", Params: map[string]int{"N": 2, "L": 1, "WTXNQ": 1}, Covers: []string{"C06.wtxn-queries", "C06.end"}, NoNative: true},
-			{Entry: "VerifC06Watch", Params: map[string]int{"N": 2, "L": 2, "WTXNQ": 1, "PRESET": 2, "KEYFAM": 1}, Covers: []string{"C06.wtxn-queries", "C06.end"}, NoNative: true}},
+			{Entry: "VerifC06Watch", Params: map[string]int{"N": 2, "L": 1, "WTXNQ": 1}, Covers: []string{"C06.wtxn-queries", "C06.end"}, NoNative: true},},
 		Known: []KnownProbe{{ID: "KF-wtxn-get-watch", Entry: "VerifKFWtxnGetWatch"}},
 		Outside: []string{"write-transaction queries: one query (Get/List/Prefix/LowerBound/All on the primary index, List on the non-unique and LPM indexes) made after the transaction's first write, its channel must be closed by Commit if a later write of the same transaction changed its result and never by Abort", "outside: a waiting goroutine is modelled by the sync observer (every point at which it could wake up relative to the committer's synchronisation operations); pre-state of two objects; more than N later writes; nothing is asserted about channels that close although the result did not change (allowed)"},
 	})
